@@ -53,7 +53,8 @@ def main():
         case = json.load(f)
     import execnet
 
-    assert os.path.abspath(execnet.__file__).startswith("/repo/src/"), execnet.__file__
+    want = os.path.join(os.environ.get("VERIF_REPO", "/repo"), "src") + os.sep
+    assert os.path.abspath(execnet.__file__).startswith(want), execnet.__file__
     orig_init = subprocess.Popen.__init__
 
     def logging_init(self, *a, **k):
